@@ -252,6 +252,12 @@ func c08Run(c *h.Ctx) {
 			c08FreeRun(c, id, c.Rng(id))
 		}
 	}
+	for k := 0; k < c.Pick(2, 10); k++ {
+		id := fmt.Sprintf("retx%d", k)
+		if c.Case(id) {
+			c08Retx(c, id, c.Rng(id))
+		}
+	}
 	nf := c.Pick(80, 800)
 	for k := 0; k < nf; k++ {
 		id := fmt.Sprintf("fib%d", k)
